@@ -421,6 +421,7 @@ class Engine:
         self.inline_depth = inline_depth
         self.prune = prune
         self.types = {}          # term -> qualType (for atoms)
+        self.optype = {}         # arithmetic term -> C type of the operation
         self.npaths = 0
         self.record_loads = False
         self.pure = set()            # callees shown elsewhere not to modify their arguments' objects
@@ -641,6 +642,41 @@ class Engine:
         lins += self.nonneg_facts([goal])
         lins += division_axioms([goal])
         return lin.entails(lins, goal)
+
+    INT_MAX_OF = {'unsigned char': 255, 'unsigned short': 65535, 'unsigned int': (1 << 32) - 1, 'int': (1 << 31) - 1,
+                  'short': 32767, 'signed char': 127, 'char': 127}
+
+    def narrow_wraps(self, terms, facts):
+        """arithmetic subterms of `terms` that are carried out in a type narrower than 64 bits and are not proved to
+        stay within that type under `facts` plus the value ranges of their narrow atoms -> [(term, type, why)]"""
+        out = []
+        seen = set()
+        for t0 in terms:
+            for t in subterms(t0):
+                if t in seen or t not in self.optype:
+                    continue
+                seen.add(t)
+                qt = self.optype[t].replace('const ', '').strip()
+                mx = self.INT_MAX_OF.get(qt)
+                if mx is None:
+                    continue
+                rng = []
+                for a in linearize(t).atoms():
+                    aq = (self.types.get(a) or '').replace('const ', '').strip()
+                    if a[0] == 'cast':
+                        aq = a[1]
+                    am = self.INT_MAX_OF.get(aq)
+                    if am is None and a[0] in ('f', 'fv') and isinstance(a[2], str):
+                        am = None
+                    if am is not None:
+                        rng.append(linearize(a) - am)
+                        if aq.startswith('unsigned'):
+                            rng.append(-linearize(a))
+                if not self.entails(list(facts) + rng, linearize(t) - mx):
+                    out.append((t, qt, 'may exceed %d' % mx))
+                elif t[0] == '-' and qt.startswith('unsigned') and not self.entails(list(facts) + rng, linearize(t[2]) - linearize(t[1])):
+                    out.append((t, qt, 'may go below 0'))
+        return out
 
     def feasible(self, conds, extra=()):
         facts = self.path_facts(conds) + list(extra)
@@ -1663,6 +1699,11 @@ class _Activation:
         r = mk_bin(m.get(op, op), a, b)
         if r[0] == 'c' and is_c(a) and is_c(b):
             r = self.wrap_const(r, node)
+        elif r[0] in ('+', '-', '*', '<<') and node is not None:
+            # remember the C type the operation is carried out in: rules that must exclude wrap-around of arithmetic
+            # narrower than size_t (narrow_ops) look it up
+            qt = (node.get('type', {}).get('desugaredQualType') or node.get('type', {}).get('qualType') or '')
+            self.e.optype.setdefault(r, qt)
         return r
 
     def wrap_const(self, c, node):
